@@ -71,10 +71,10 @@ def check(run, driver):
     if not d or d["methods"] is None or d["informations"] is None:
         run.extra["translator"] = "UNTRANSLATABLE (" + "; ".join(notes) + ") -- the source no longer has a shape the AST translator recognises; the table obligation is not established on this run and the property is decided by the correspondence alone (DESIGN.md §2.4)"
     else:
-        body = ("example : Generated.methods = [\"standard\", \"alternative\", \"information_lasso\", \"lasso\"] := by decide\n"
+        body = ("example : Generated.methods.isPerm [\"standard\", \"alternative\", \"information_lasso\", \"lasso\"] = true := by decide\n"
                 "example : ∀ m, (CE.Disc.parseMethod m).isSome = Generated.methods.contains m := by\n"
                 "  intro m; by_cases h1 : m = \"standard\" <;> by_cases h2 : m = \"alternative\" <;> by_cases h3 : m = \"information_lasso\" <;> by_cases h4 : m = \"lasso\" <;> simp_all [CE.Disc.parseMethod, Generated.methods]\n"
-                "example : Generated.informations = CE.Disc.supportedInformation := by decide\n")
+                "example : Generated.informations.isPerm CE.Disc.supportedInformation = true := by decide\n")
         src = (gen_tables.GEN / "Tables.lean").read_text()
         f = gen_tables.GEN / "ObC06.lean"
         f.write_text("import CEModel.Discovery\n" + src + "\n" + body)
